@@ -406,7 +406,12 @@ func (p *Prog) callEffects(fi *FuncInfo, info *types.Info, call *ast.CallExpr, e
 					break // the text of an error (or panic) value: a failed call yields no report and no code
 				}
 				if t := fi.Pkg.TypesInfo.TypeOf(a); t != nil && printsAddress(t, 0, map[types.Type]bool{}) {
-					e.Nondet["fmtaddr:"+fi.Name+"@"+exprString(a)] = full + " prints the address held in " + exprString(a) + " (" + t.String() + ") at " + p.pos(call)
+					id := "fmtaddr:" + fi.Name + "@" + exprString(a)
+					if fld := fieldOfSelector(fi.Pkg.TypesInfo, a); fld != "" {
+						// a struct field: the source is named after the field, so that moving the statement into a helper does not rename it
+						id = "fmtaddr:field:" + fld
+					}
+					e.Nondet[id] = full + " prints the address held in " + exprString(a) + " (" + t.String() + ") at " + p.pos(call)
 				}
 			}
 		}
@@ -748,4 +753,160 @@ func (p *Prog) feedsOnlyAnError(fi *FuncInfo, call *ast.CallExpr) bool {
 		return true
 	})
 	return found
+}
+
+// fieldOfSelector: pkg.Struct.field when e selects a field of a named struct type
+func fieldOfSelector(info *types.Info, e ast.Expr) string {
+	se, ok := unparen(e).(*ast.SelectorExpr)
+	if !ok {
+		return ""
+	}
+	sel, ok := info.Selections[se]
+	if !ok || sel.Kind() != types.FieldVal {
+		return ""
+	}
+	rt := sel.Recv()
+	if pt, ok := rt.Underlying().(*types.Pointer); ok {
+		rt = pt.Elem()
+	}
+	if n, ok := types.Unalias(rt).(*types.Named); ok && n.Obj().Pkg() != nil {
+		return n.Obj().Pkg().Name() + "." + n.Obj().Name() + "." + se.Sel.Name
+	}
+	return ""
+}
+
+// deadPointerFormat decides a "fmtaddr:field:pkg.Struct.f" source: the address in field f (a pointer to a basic type) is
+// never printed when (a) no function of the repository stores through a pointer of that type, (b) every value the field is
+// given is the address of a local initialised to the constant 0 in the same function, or a copy of the same field of
+// another value, and (c) every formatting of the field sits inside an if whose condition is `*<the same expression> > 0`:
+// the cell holds 0 for ever, the guard is false, the format is not reached.
+func (p *Prog) deadPointerFormat(id string) (bool, string) {
+	parts := strings.Split(strings.TrimPrefix(id, "fmtaddr:field:"), ".")
+	if len(parts) != 3 {
+		return false, ""
+	}
+	pkgName, structName, field := parts[0], parts[1], parts[2]
+	var ptrType types.Type
+	var why []string
+	u := NewUniverse()
+	for _, n := range p.Order {
+		fi := p.Funcs[n]
+		if fi == nil || fi.Body() == nil || strings.HasSuffix(fi.File, "_test.go") {
+			continue
+		}
+		info := fi.Pkg.TypesInfo
+		var stack []ast.Node
+		ast.Inspect(fi.Body(), func(nd ast.Node) bool {
+			if nd == nil {
+				stack = stack[:len(stack)-1]
+				return true
+			}
+			stack = append(stack, nd)
+			switch x := nd.(type) {
+			case *ast.KeyValueExpr:
+				k, ok := x.Key.(*ast.Ident)
+				if !ok || k.Name != field || len(stack) < 2 {
+					return true
+				}
+				cl, ok := stack[len(stack)-2].(*ast.CompositeLit)
+				if !ok {
+					return true
+				}
+				if nt, ok := types.Unalias(info.TypeOf(cl)).(*types.Named); !ok || nt.Obj().Name() != structName || nt.Obj().Pkg() == nil || nt.Obj().Pkg().Name() != pkgName {
+					return true
+				}
+				ptrType = info.TypeOf(x.Value)
+				v := unparen(x.Value)
+				if se, ok := v.(*ast.SelectorExpr); ok && se.Sel.Name == field {
+					return true // a copy of the same field
+				}
+				if ue, ok := v.(*ast.UnaryExpr); ok && ue.Op == token.AND {
+					if id, ok := unparen(ue.X).(*ast.Ident); ok {
+						if obj := info.Uses[id]; obj != nil && p.localInitialisedToZeroOnly(fi, obj) {
+							return true
+						}
+					}
+				}
+				why = append(why, "field "+field+" is given "+exprString(x.Value)+" at "+p.pos(x))
+			case *ast.AssignStmt:
+				for _, l := range x.Lhs {
+					if fieldOfSelector(info, l) == pkgName+"."+structName+"."+field {
+						why = append(why, "field "+field+" is assigned at "+p.pos(x))
+					}
+				}
+			case *ast.CallExpr:
+				if fn := externalCallee(info, x); fn != nil && strings.HasPrefix(extFullName(fn), "fmt.") {
+					for _, a := range x.Args {
+						if fieldOfSelector(info, a) != pkgName+"."+structName+"."+field {
+							continue
+						}
+						guarded := false
+						for i := len(stack) - 2; i >= 0 && !guarded; i-- {
+							ifs, ok := stack[i].(*ast.IfStmt)
+							if !ok || i+1 >= len(stack) || stack[i+1] != ast.Node(ifs.Body) {
+								continue
+							}
+							if be, ok := unparen(ifs.Cond).(*ast.BinaryExpr); ok && be.Op == token.GTR && exprString(be.X) == "*"+exprString(a) && exprString(be.Y) == "0" {
+								guarded = true
+							}
+						}
+						if !guarded {
+							why = append(why, exprString(a)+" is formatted at "+p.pos(x)+" outside a guard `*"+exprString(a)+" > 0`")
+						}
+					}
+				}
+			}
+			return true
+		})
+	}
+	if ptrType == nil {
+		return false, "no composite literal sets the field " + field
+	}
+	if _, ok := ptrType.Underlying().(*types.Pointer); !ok {
+		return false, ""
+	}
+	for _, h := range p.heapNamesOf(u, ptrType) {
+		for _, n := range p.Order {
+			if d := p.Direct[n]; d != nil && d.Heaps[h] {
+				why = append(why, n+" stores through a "+ptrType.String())
+			}
+		}
+	}
+	if len(why) > 0 {
+		sort.Strings(why)
+		return false, strings.Join(why, "; ")
+	}
+	return true, "dead format: every " + structName + "." + field + " points to a cell initialised to 0, no function stores through a " + ptrType.String() + ", and each formatting of it is guarded by `*" + field + " > 0`"
+}
+
+// localInitialisedToZeroOnly: obj is a local of fi defined by `v := 0` and never assigned again
+func (p *Prog) localInitialisedToZeroOnly(fi *FuncInfo, obj types.Object) bool {
+	info := fi.Pkg.TypesInfo
+	defs, writes := 0, 0
+	ast.Inspect(fi.Body(), func(nd ast.Node) bool {
+		switch x := nd.(type) {
+		case *ast.AssignStmt:
+			for i, l := range x.Lhs {
+				id, ok := unparen(l).(*ast.Ident)
+				if !ok {
+					continue
+				}
+				if x.Tok == token.DEFINE && info.Defs[id] == obj {
+					if i < len(x.Rhs) && exprString(x.Rhs[i]) == "0" && len(x.Lhs) == len(x.Rhs) {
+						defs++
+					} else {
+						writes++
+					}
+				} else if info.Uses[id] == obj {
+					writes++
+				}
+			}
+		case *ast.IncDecStmt:
+			if id, ok := unparen(x.X).(*ast.Ident); ok && info.Uses[id] == obj {
+				writes++
+			}
+		}
+		return true
+	})
+	return defs == 1 && writes == 0
 }
